@@ -3,6 +3,7 @@ import LunarVerif.Spec.C18Sharing
 import LunarVerif.Proofs.C18Publish
 import LunarVerif.Proofs.C18Expire
 import LunarVerif.Spec.C18Expire
+import LunarVerif.Proofs.C18Vacuum
 /-!
 # C18 — Concurrent transactions do not corrupt or share engine state
 
@@ -218,5 +219,83 @@ example : "K" ∈ (run [.add "K" 150, .sleep 100, .discard "K", .add "K" 150, .s
 
 /-- ... and a pass after the latest deadline removes it -/
 example : (run [.add "K" 150, .sleep 100, .add "K" 150, .sleep 200, .sweep] {}).store = [] := by decide
+
+end LunarVerif.C18
+
+/-! ## Part (e): `MapVacuum` — registrations racing with a vacuum pass (model `Model/C18Vacuum.lean`) -/
+namespace LunarVerif.C18
+open Vacuum
+
+/-- For EVERY interleaving of registrations (`VacuumKey`) with the three critical sections of the
+    background pass: a key that is in the map always still has a pending entry that survives the pass in
+    progress — no registration is forgotten, so every key is examined again by a later pass. -/
+theorem no_registered_key_forgotten (steps : List Step) :
+    ∀ k ∈ (run steps {}).map,
+      ∃ e ∈ (run steps {}).entries.drop (pendingDrop (run steps {})), e.1 = k :=
+  (inv_run steps {} inv_init).tracked
+
+theorem inv_pass (s : St) (during : Option String) (h : Inv s) : Inv (pass s during) := by
+  unfold pass
+  cases during with
+  | none => exact inv_step _ _ (inv_step _ _ (inv_step _ _ h))
+  | some k => exact inv_step _ _ (inv_step _ _ (inv_step _ _ (inv_step _ _ h)))
+
+theorem inv_clock (s : St) (n : Nat) (w : Option Nat) (h : Inv s) : Inv { s with now := n, wakeAt := w } :=
+  ⟨h.excl, h.pre, h.fits, h.tracked⟩
+
+theorem inv_advance : ∀ (fuel : Nat) (s : St) (target : Nat) (d : Option String), Inv s →
+    Inv (advance fuel s target d) := by
+  intro fuel
+  induction fuel with
+  | zero => intro s t d h; exact inv_clock s t s.wakeAt h
+  | succ f ih =>
+    intro s t d h
+    unfold advance
+    split
+    · exact ⟨h.excl, h.pre, h.fits, h.tracked⟩
+    · split
+      · apply ih
+        have h1 : Inv { s with now := max s.now ‹Nat› } := ⟨h.excl, h.pre, h.fits, h.tracked⟩
+        have h2 := inv_pass _ d h1
+        exact ⟨h2.excl, h2.pre, h2.fits, h2.tracked⟩
+      · exact ⟨h.excl, h.pre, h.fits, h.tracked⟩
+
+theorem inv_vadd (s : St) (k : String) (h : Inv s) : Inv (vadd s k) := by
+  unfold vadd
+  have h1 := inv_step s (.add k) h
+  cases hw : (step s (.add k)).wakeAt with
+  | some w => simp only [hw]; exact h1
+  | none =>
+    simp only [hw]
+    have h2 := inv_pass _ none h1
+    exact ⟨h2.excl, h2.pre, h2.fits, h2.tracked⟩
+
+/-- the same at the granularity the harness drives: registrations and clock advances, with a
+    registration forced into the window in which the pass reads the clock -/
+theorem no_key_forgotten_driven (ops : List (String ⊕ (Nat × Option String))) :
+    let s := ops.foldl (fun s o => match o with
+      | .inl k => vadd s k
+      | .inr (adv, d) => advance (adv + 1) s (s.now + adv) d) ({ ttl := 30, tick := 10 } : St)
+    ∀ k ∈ s.map, ∃ e ∈ s.entries.drop (pendingDrop s), e.1 = k := by
+  intro s
+  have : ∀ (ops : List (String ⊕ (Nat × Option String))) (s0 : St), Inv s0 →
+      Inv (ops.foldl (fun s o => match o with
+        | .inl k => vadd s k
+        | .inr (adv, d) => advance (adv + 1) s (s.now + adv) d) s0) := by
+    intro ops
+    induction ops with
+    | nil => intro s0 h; exact h
+    | cons o os ih =>
+      intro s0 h
+      apply ih
+      cases o with
+      | inl k => exact inv_vadd s0 k h
+      | inr p => obtain ⟨adv, d⟩ := p; exact inv_advance _ _ _ _ h
+  exact (this ops _ ⟨Or.inl rfl, (by intro sn h; cases h), (by intro n h; cases h), (by intro k hk; simp at hk)⟩).tracked
+
+/-- non-vacuity: B is registered while the pass that expires A reads the clock; the next pass after B's
+    deadline removes B -/
+example : (advance 41 (advance 32 (vadd ({ ttl := 30, tick := 10 } : St) "A") 31 (some "B")) 71 none).map = [] := by
+  decide
 
 end LunarVerif.C18
